@@ -42,3 +42,9 @@ Definition snapshot_styles_ok (skip : list Z) (d : doc) (t : Q) (py : list elem)
                     end) py.
 Definition cases_styles (skip : list Z) (d : doc) (qs : list (Q * option (list elem))) : list bool :=
   map (fun q => match snd q with Some py => snapshot_styles_ok skip d (fst q) py | None => true end) qs.
+
+(* the hypotheses of C03_snapshot_values / C03_all_properties on a generated document: content model and typed
+   tts:textDecoration values along every ancestor chain *)
+Definition hyp_ok (d : doc) (t : Q) : bool :=
+  styles_wf d && forallb (fun r => forallb (td_typed d t) (doc_chains d r)) (source_regions d).
+Definition cases_hyp (d : doc) (qs : list (Q * option (list elem))) : list bool := map (fun q => hyp_ok d (fst q)) qs.
